@@ -354,7 +354,37 @@ def ref_pred(ch, name, placement):
         return ('q', ch.pick(['forall', 'exists']), v, ('field', ('var', name), 'ys'), binop('>', ('var', v), own('x')))
     if placement == 'nested':
         return ('un', 'not', binop('implies', base, ('call', 'bool', binop('=', r, ('set', (own('x'),)) and own('x')))))
+    zero, one = ('lit', 'int', '0'), ('lit', 'int', '1')
+    v = ch.pick(['i', 'j'])
+    qk = ch.pick(['forall', 'exists'])
+    if placement == 'index':
+        return binop('>', ('index', own('xs'), r), zero)
+    if placement == 'range-bound':
+        return binop('in', own('x'), ('range', zero, r, False, ch.bool()) if ch.bool() else ('range', r, one, ch.bool(), False))
+    if placement == 'set-element':
+        return binop('in', own('x'), ('set', (one, r)) if ch.bool() else ('set', (r,)))
+    if placement == 'call-argument':
+        return binop('>', ('call', ch.pick(['abs', 'len', 'max']), r), own('x'))
+    if placement == 'indexed-alias':
+        return binop('>', ('index', ('field', ('var', name), 'ys'), ch.pick([zero, own('x')])), own('x'))
+    if placement == 'qdomain-range':
+        dom = ('range', zero, r, False, False) if ch.bool() else ('range', r, one, False, True)
+        return ('q', qk, v, dom, binop('>', ('var', v), own('x')))
+    if placement == 'qdomain-set':
+        dom = ('set', (one, r)) if ch.bool() else ('set', (r,))
+        return ('q', qk, v, dom, binop('>', own('x'), ('var', v)))
+    if placement == 'qdomain-inner':
+        # the domain of a quantifier inside the body of another one
+        inner = ('q', ch.pick(['forall', 'exists']), 'k', ('set', (r, ('var', v))), binop('>', ('var', 'k'), zero))
+        return ('q', qk, v, own('xs'), inner)
+    if placement == 'qbody-index':
+        return ('q', qk, v, own('xs'), binop('>', ('index', own('zs'), r), ('var', v)))
     raise ValueError(placement)
+
+
+# every syntactic position a reference can stand at
+PLACEMENTS = ['top', 'top', 'top', 'qbody', 'qdomain', 'nested', 'index', 'range-bound', 'set-element', 'call-argument', 'indexed-alias',
+              'qdomain-range', 'qdomain-set', 'qdomain-inner', 'qbody-index']  # fmt: skip
 
 
 def gen_simple(ch, topic, own_alias_prob=4):
@@ -362,7 +392,7 @@ def gen_simple(ch, topic, own_alias_prob=4):
     which = ch.pick([None, None, None, None, None, None, 'A', 'A', 'B', 'Z', 'own', 'own'])
     if which == 'own':
         which = alias
-    pred = ref_pred(ch, which, ch.pick(['top', 'top', 'qbody', 'qdomain', 'nested']))
+    pred = ref_pred(ch, which, ch.pick(PLACEMENTS))
     return ('ev', topic, alias, pred)
 
 
